@@ -159,7 +159,7 @@ def body_cli(case, rec):
         asms = info.get("assemblies") or {}
         # per-assembly figures are relative to the input scaffolds of the same name prefix; they equal the totals only
         # when the input has a single prefix group (no first-contig name of the form <letters><digits>_...)
-        single_group = not any(re.match(r"[A-Za-z]+\d+_", next(r for r in rows if r[0] == "F")[1]) for _n, rows in case["input"])
+        single_group = not any(re.match(r"[A-Za-z]+\d+_", next(r for r in rows if r[0] == "F")[1]) for _n, rows in case["input"] if any(r[0] == "F" for r in rows))
         if single_group and "manual_breaks" not in info and len(asms) == 1 and len([f for f in out.parent.iterdir() if f.name.endswith('.agp')]) == 1:
             v = next(iter(asms.values()))
             if (v["manual_breaks"], v["manual_joins"]) != exp[1:]:
@@ -189,6 +189,9 @@ def cases(draw, cli=False):
             sc[0] = new
     kind = draw(st.integers(0, 3))
     m = draw(gen.model_map(inp, t, cut=kind != 0))
+    if draw(st.integers(0, 5)) == 0:
+        # an input scaffold without any contig (a FASTA record of N only), absent from the map
+        inp.insert(draw(st.integers(0, len(inp))), [f"all_n_{len(inp)}", [["G", draw(st.sampled_from([1, 50, 1000])), "scaffold"]]])
     case = {"t": gen.texel_str(t), "input": inp, "map": m, "prefix": "SUPER_"}
     if kind == 0:
         # whole-scaffold edits only: reverse some scaffolds as a whole
